@@ -249,7 +249,12 @@ var cidNames = map[string]string{}
 
 func Cid(name string) cid.Cid {
 	// identity-multihash raw cids: "bafkqaaa" is the empty identity cid; build distinct ones.
-	c, err := cid.V1Builder{Codec: cid.Raw, MhType: 0x00}.Sum([]byte("cid-" + name))
+	// "x#cbor" is the SAME digest as "x" under another codec (dag-cbor instead of raw): a different CID that hashes the same bytes
+	codec, base := uint64(cid.Raw), name
+	if strings.HasSuffix(name, "#cbor") {
+		codec, base = uint64(cid.DagCBOR), strings.TrimSuffix(name, "#cbor")
+	}
+	c, err := cid.V1Builder{Codec: codec, MhType: 0x00}.Sum([]byte("cid-" + base))
 	if err != nil {
 		panic(err)
 	}
